@@ -59,6 +59,7 @@ type Exec struct {
 	specs     *Contracts
 	obls      []*Obligation
 	axioms    []*Term // global definitional assumptions (skolemised definitions)
+	defAxioms map[string][]*Term // definitional axioms keyed by the symbol they define
 	discovery int     // >0: loop modset discovery run, no obligations recorded
 	specMode  int     // >0: evaluating a spec function
 	specDefs  []*Term // definedness conditions collected in spec mode
@@ -92,7 +93,7 @@ type Exec struct {
 
 func NewExec(prog *ssa.Program, specs *Contracts) *Exec {
 	return &Exec{prog: prog, specs: specs, notes: map[string]bool{}, tids: map[string]int{}, maxPaths: 60000,
-		siteSeen: map[string]int{}, globals: map[*ssa.Global]*Term{}, mutGlobal: map[*ssa.Global]bool{}}
+		defAxioms: map[string][]*Term{}, siteSeen: map[string]int{}, globals: map[*ssa.Global]*Term{}, mutGlobal: map[*ssa.Global]bool{}}
 }
 
 func (e *Exec) note(s string) { e.notes[s] = true }
@@ -308,18 +309,31 @@ func (e *Exec) load(st *State, fr *Frame, p *PtrV, pos token.Pos) Value {
 
 // assumeValid adds the facts that hold for every value read from memory: references are nil or already allocated,
 // slice headers are well formed.
+// refBound: references read directly from the initial heap existed at function entry; anything else is only known
+// to be allocated by now.
+func (e *Exec) refBound(st *State, r *Term) *Term {
+	t := r
+	for t.Op == "select" {
+		t = t.Args[0]
+	}
+	if t.Op == "var" && strings.HasPrefix(t.Name, "H0:") && e.topEntry != nil {
+		return e.topEntry
+	}
+	return st.Top()
+}
+
 func (e *Exec) assumeValid(st *State, t types.Type, v Value) {
 	switch x := v.(type) {
 	case *PtrV:
 		if x.Kind == PObj && len(x.Path) == 0 && x.Base.Op != "ref" && x.Base.Op != "intconst" {
 			if _, isG := x.Root.(globalRoot); !isG {
-				st.Assume(IntLe(IntConst(0), x.Base))
-				st.Assume(IntLt(x.Base, st.Top()))
+				st.AssumeFact(IntLe(IntConst(0), x.Base))
+				st.AssumeFact(IntLt(x.Base, e.refBound(st, x.Base)))
 			}
 		}
 		if x.Kind == PArr && x.Arr.Op != "ref" && x.Arr.Op != "intconst" {
-			st.Assume(IntLe(IntConst(0), x.Arr))
-			st.Assume(IntLt(x.Arr, st.Top()))
+			st.AssumeFact(IntLe(IntConst(0), x.Arr))
+			st.AssumeFact(IntLt(x.Arr, e.refBound(st, x.Arr)))
 		}
 	case *SliceV:
 		if x.Arr.Op != "ref" && x.Len.Op != "bvconst" {
@@ -327,17 +341,17 @@ func (e *Exec) assumeValid(st *State, t types.Type, v Value) {
 		}
 	case *StrV:
 		if x.Const == nil && x.Len.Op != "bvconst" {
-			st.Assume(BVUle(x.Len, BVConst(1<<40, 64)))
+			st.AssumeFact(BVUle(x.Len, BVConst(1<<40, 64)))
 		}
 	case *IfaceV:
 		if x.Ref.Op != "ref" && x.Ref.Op != "intconst" {
-			st.Assume(IntLt(x.Ref, st.Top()))
-			st.Assume(IntLe(IntConst(0), x.Tid))
+			st.AssumeFact(IntLt(x.Ref, e.refBound(st, x.Ref)))
+			st.AssumeFact(IntLe(IntConst(0), x.Tid))
 		}
 	case *MapV:
 		if x.Ref.Op != "ref" && x.Ref.Op != "intconst" {
-			st.Assume(IntLe(IntConst(0), x.Ref))
-			st.Assume(IntLt(x.Ref, st.Top()))
+			st.AssumeFact(IntLe(IntConst(0), x.Ref))
+			st.AssumeFact(IntLt(x.Ref, e.refBound(st, x.Ref)))
 		}
 	case *StructV:
 		for i, f := range x.F {
@@ -349,12 +363,13 @@ func (e *Exec) assumeValid(st *State, t types.Type, v Value) {
 const maxLen = 1 << 40 // type invariant: no slice is longer than this (runtime maxAlloc is 2^48 bytes)
 
 func (e *Exec) assumeSliceWF(st *State, s *SliceV) {
-	st.Assume(IntLe(IntConst(0), s.Arr))
-	st.Assume(IntLt(s.Arr, st.Top()))
-	st.Assume(BVUle(s.Len, s.Cap))
-	st.Assume(BVUle(s.Cap, BVConst(maxLen, 64)))
-	st.Assume(BVUle(s.Off, BVConst(maxLen, 64)))
-	st.Assume(Implies(Eq(s.Arr, IntConst(0)), Eq(s.Cap, BVConst(0, 64))))
+	st.AssumeFact(IntLe(IntConst(0), s.Arr))
+	st.AssumeFact(IntLt(s.Arr, e.refBound(st, s.Arr)))
+	st.AssumeFact(BVUle(s.Len, s.Cap))
+	st.AssumeFact(BVUle(s.Cap, BVConst(maxLen, 64)))
+	st.AssumeFact(BVUle(s.Off, BVConst(maxLen, 64)))
+	st.AssumeFact(BVUle(BVAdd(s.Off, s.Cap), BVConst(maxLen, 64))) // the slice lies inside its backing array
+	st.AssumeFact(Implies(Eq(s.Arr, IntConst(0)), Eq(s.Cap, BVConst(0, 64))))
 }
 
 func (e *Exec) store(st *State, fr *Frame, p *PtrV, v Value, pos token.Pos) {
@@ -1298,6 +1313,8 @@ func (e *Exec) seqEq(ad, aoff, alen, bd, boff, blen *Term) *Term {
 	eq := App(key, SBool)
 	if !e.notes["def:"+key] {
 		e.notes["def:"+key] = true
+		n0 := len(e.axioms)
+		defer func() { e.defAxioms[key] = append(e.defAxioms[key], e.axioms[n0:]...); e.axioms = e.axioms[:n0] }()
 		simple := func(t *Term) bool {
 			for t.Op == "select" {
 				t = t.Args[0]
@@ -1361,6 +1378,8 @@ func (e *Exec) fromFP(f *Term, t types.Type) *Term {
 	b := App(key, BV(w))
 	if !e.notes["def:"+key] {
 		e.notes["def:"+key] = true
+		n0 := len(e.axioms)
+		defer func() { e.defAxioms[key] = append(e.defAxioms[key], e.axioms[n0:]...); e.axioms = e.axioms[:n0] }()
 		e.axioms = append(e.axioms, FPOp("=", SBool, e.toFP(b, t), f))
 		// canonical NaN so the pattern is determined
 		nan := BVConst(0x7ff8000000000001, 64)
